@@ -107,6 +107,11 @@ pub trait Interface: ErrorHandler {
                     header = call_header;
                 }
             }
+            else {
+                // An empty program message unit is ended by a terminator, which
+                // resets the header path as well.
+                header = self.root_node();
+            }
 
             input = i;
         }
